@@ -75,6 +75,14 @@ func main() {
 		}
 		return
 	}
+	if *dump == "returnvalues" {
+		dumpReturnValues(P)
+		return
+	}
+	if *dump == "writeargs" {
+		dumpWriteArgs(P)
+		return
+	}
 	if *dump == "switchatoms" {
 		dumpSwitchAtoms(P)
 		return
